@@ -15,7 +15,9 @@ use std::num::NonZeroU64;
 use std::panic::{AssertUnwindSafe, catch_unwind};
 use std::path::{Path, PathBuf};
 
-const VOCAB: [&str; 8] = ["alpha", "bravo", "carbon", "delta", "ember", "fjord", "gamma", "harbor"];
+// 8..11: two pairs of inflected forms with a common stem and no substring relation (C10: the analysed form of a document may
+// match a query whose literal term the text does not contain)
+const VOCAB: [&str; 12] = ["alpha", "bravo", "carbon", "delta", "ember", "fjord", "gamma", "harbor", "connected", "connection", "walked", "walking"];
 
 /// Concrete bytes of abstract payload `id` of class `cls`:
 ///  bin   non-UTF-8 bytes (stored plain)
@@ -52,9 +54,10 @@ pub fn payload_bytes(id: u64, cls: &str, size: usize, words: &[String]) -> Vec<u
         _ => {
             // text / long: deterministic prose.  Sentences so that the chunker has
             // boundaries; unique token "doc<id>" first.
+            // "textc": the words are separated by commas, so no two of them form a phrase (C10)
             let mut s = format!("doc{id}");
-            for w in words {
-                s.push(' ');
+            for (i, w) in words.iter().enumerate() {
+                s.push_str(if cls == "textc" && i > 0 { ", " } else { " " });
                 s.push_str(w);
             }
             s.push('.');
@@ -69,6 +72,16 @@ pub fn payload_bytes(id: u64, cls: &str, size: usize, words: &[String]) -> Vec<u
                     s.push_str("\n\n");
                 }
                 k += 1;
+            }
+            if cls == "text2" {
+                // the words once more at the very end: two occurrences further apart than a snippet window (C10: several
+                // snippet slices per document)
+                s.push_str(".\n\nSummary:");
+                for w in words {
+                    s.push(' ');
+                    s.push_str(w);
+                }
+                s.push('.');
             }
             s.into_bytes()
         }
@@ -317,7 +330,8 @@ impl Ctx {
                     if done[k] {
                         continue;
                     }
-                    let mut buf = [0u8; 13];
+                    // small pieces; larger ones for multi-megabyte payloads so that the number of rounds stays bounded
+                    let mut buf = vec![0u8; 13 + want[k].len() / 4096];
                     match rd.read(&mut buf) {
                         Ok(0) => done[k] = true,
                         Ok(n) => got[k].extend_from_slice(&buf[..n]),
@@ -538,6 +552,9 @@ fn query_of(op: &Value) -> String {
         let s = t.as_str().unwrap_or("");
         if let Some(n) = s.strip_prefix('w').and_then(|x| x.parse::<usize>().ok()) {
             parts.push(VOCAB[n % VOCAB.len()].to_string());
+        } else if let Some((a, b)) = s.strip_prefix('P').and_then(|x| x.split_once('_')).and_then(|(a, b)| Some((a.parse::<usize>().ok()?, b.parse::<usize>().ok()?))) {
+            // a quoted phrase of two vocabulary words
+            parts.push(format!("\"{} {}\"", VOCAB[a % VOCAB.len()], VOCAB[b % VOCAB.len()]));
         } else if let Some(n) = s.strip_prefix('T') {
             parts.push(format!("tag:tag-{n}"));
         } else if let Some(n) = s.strip_prefix('L') {
@@ -618,12 +635,14 @@ pub fn exec(ctx: &mut Ctx, op: &Value) -> (Value, Value) {
         "open" | "open_ro" => {
             ctx.mem = None;
             let ro = name == "open_ro";
+            // C18: the file as it is BEFORE the read-only open (the open itself must not change it either)
+            let before = if ro { ctx.file_identity() } else { None };
             let r = catch_unwind(AssertUnwindSafe(|| if ro { Memvid::open_read_only(&path) } else { Memvid::open(&path) }));
             match r {
                 Ok(Ok(m)) => {
                     ctx.mem = Some(m);
                     ctx.ro = ro;
-                    ctx.ro_digest = if ro { ctx.file_identity() } else { None };
+                    ctx.ro_digest = before;
                     res_ok(json!(null))
                 }
                 Ok(Err(e)) => res_err(&e),
@@ -632,11 +651,17 @@ pub fn exec(ctx: &mut Ctx, op: &Value) -> (Value, Value) {
         }
         "close" => {
             // Drop commits when dirty
+            let was_ro = ctx.ro && ctx.mem.is_some();
             let m = ctx.mem.take();
-            match catch_unwind(AssertUnwindSafe(move || drop(m))) {
+            let r = match catch_unwind(AssertUnwindSafe(move || drop(m))) {
                 Ok(()) => res_ok(json!(null)),
                 Err(p) => res_panic(p),
+            };
+            if was_ro {
+                // C18: letting go of a read-only handle must not change the file either
+                extra = json!({"ro_closed_unchanged": ctx.ro_digest.is_some() && ctx.ro_digest == ctx.file_identity()});
             }
+            r
         }
         "abandon" => {
             // the handle disappears between two calls without running Drop's commit:
@@ -650,6 +675,23 @@ pub fn exec(ctx: &mut Ctx, op: &Value) -> (Value, Value) {
             f.write_all(&bytes).expect("restore snapshot");
             f.sync_all().ok();
             res_ok(json!(null))
+        }
+        "legacy_lock" => {
+            // a file as an older release left it: lock-owner metadata in the reserved bytes 80..140 of the header
+            // (HeaderCodec documents them as legacy lock metadata).  Only with no handle open.
+            use std::io::{Seek, SeekFrom};
+            if ctx.mem.is_some() {
+                json!({"ok": false, "err": "HandleOpen"})
+            } else {
+                match std::fs::OpenOptions::new().write(true).open(&path) {
+                    Ok(mut f) => {
+                        let fill: Vec<u8> = (0..60u8).map(|i| 0x41 + (i % 26)).collect();
+                        let ok = f.seek(SeekFrom::Start(80)).is_ok() && f.write_all(&fill).is_ok() && f.sync_all().is_ok();
+                        if ok { res_ok(json!(null)) } else { json!({"ok": false, "err": "Io"}) }
+                    }
+                    Err(_) => json!({"ok": false, "err": "Io"}),
+                }
+            }
         }
         "put" => {
             let id = op["pay"].as_i64().unwrap_or(0);
